@@ -140,7 +140,7 @@ what a step does to the filter:
   a `func.set` does not reach the filter (no step: the element is not added); any other command: plain steps;
 * `async with cache.transaction(mode):` — `TransactionBackend` hands `get_bits` / `incr_bits` / `exists`
   (of a key its overlay does not hold) straight to the backend, and — repaired behaviour, proposed fix
-  D45 — `expire` of a bit-field key as well (before, it took a snapshot of the array into the overlay
+  D53 — `expire` of a bit-field key as well (before, it took a snapshot of the array into the overlay
   and the commit wrote that snapshot back over the increments made meanwhile).  So `add`, `query`,
   `expire`, `touch` inside a block are the plain steps and entering / committing is no step.
   (`delete` of the filter's key inside a transaction is deferred to the commit: not modelled, not judged.) -/
